@@ -98,6 +98,11 @@ def c01(ctx):
     ctx.assumptions = ["RFC 8259 grammar as transcribed in spec/JsonText.tla", "float64 overflow threshold 2^1024-2^970 (Decimal.tla)"]
     for name in ("struct", "num", "str", "atom"):
         enum_replay(ctx, name, "C01")
+    # number literals of every length class (the enumeration above stops at 6-8 bytes): Number.tla's grammar + its boundary and
+    # leading-zero families, verdict only
+    rn = ctx.tlc("Number", consts={"MaxLen": 5 if quick(ctx) else 7}, dump="states", label="number literals, verdict")
+    ctx.vh(["g-num", "-dump", rn["dump"], "-expect", str(rn["distinct"]), "-verdict", "-property", "C01"])
+    os.remove(rn["dump"])
     record_and_validate_text(ctx, "C01", False, 400 if quick(ctx) else 6000, 250000 if quick(ctx) else 4000000)
     record_and_validate_text(ctx, "C01", False, 0, 0, mode="sweep")     # all 256 bytes at 32 token positions + reference fragments
     # the same fragments inside 4-24 KB valid wrappers (start / index-buffer seam / very end): verdict must equal the tiny wrapper's
